@@ -4,7 +4,7 @@ Sidecar contracts for nostr_relay/rate_limiter.py  (property C18).
 import z3
 from pyvc import vals as V
 from pyvc.vals import Val, Ref, Func, Conc, NONE
-from pyvc.sx import R, Exc, LoopSpec
+from pyvc.sx import R, Exc, LoopSpec, fresh_name
 from .common import REG, Contract, Unit, SpecFunc, LOGGER, clock_read, lemma
 
 P = "nostr_relay/rate_limiter.py"
@@ -51,7 +51,33 @@ def setup_clock(sx, st, params):
 
 NOW = "ghost('clock')"
 OLD_TS = "old(timestamps)"
-CNT_ALL = "cnt(%s, len(%s), %s, rules[q][0])" % (OLD_TS, OLD_TS, NOW)
+
+REG.spec_funcs["sorted_desc"] = SpecFunc(
+    REG, "sorted_desc", [("ts", TS)], V.Bool, opaque=True, src="""
+def sorted_desc(ts):
+    return forall(lambda i, j: implies(0 <= i and i <= j and j < len(ts), ts[i] >= ts[j]))
+""")
+
+REG.spec_funcs["exhausted"] = SpecFunc(
+    REG, "exhausted", [("rules", RULES), ("ts", TS), ("now", V.Real)], V.Bool, opaque=True, src="""
+def exhausted(rules, ts, now):
+    # some rule (I, n) already has n recorded messages inside the window of length I ending now
+    return any_range(0, len(rules), lambda q: rules[q][1] >= 0 and cnt(ts, len(ts), now, rules[q][0]) >= rules[q][1])
+""")
+
+REG.spec_funcs["has_room"] = SpecFunc(
+    REG, "has_room", [("rules", RULES), ("ts", TS), ("now", V.Real)], V.Bool, opaque=True, src="""
+def has_room(rules, ts, now):
+    # every rule (I, n), n >= 0, has fewer than n recorded messages in its window: one more keeps the bound
+    return all_range(0, len(rules), lambda q: implies(rules[q][1] >= 0, cnt(ts, len(ts), now, rules[q][0]) < rules[q][1]))
+""")
+
+REG.spec_funcs["irrelevant"] = SpecFunc(
+    REG, "irrelevant", [("rules", RULES), ("ts", TS), ("now", V.Real)], V.Bool, opaque=True, src="""
+def irrelevant(rules, ts, now):
+    # no recorded timestamp lies in the window of any rule any more
+    return all_range(0, len(ts), lambda i: all_range(0, len(rules), lambda q: now - ts[i] >= rules[q][0]))
+""")
 
 evaluate_rules = REG.unit(Unit(
     P, "RateLimiter.evaluate_rules",
@@ -60,20 +86,19 @@ evaluate_rules = REG.unit(Unit(
         {"self": V.ObjT("RateLimiter"), "rules": RULES, "timestamps": TS},
         requires=[
             ("rules-nonempty", "len(rules) > 0"),
-            ("sorted-desc", "forall(lambda i, j: implies(0 <= i and i <= j and j < len(timestamps), timestamps[i] >= timestamps[j]))"),
+            ("sorted-desc", "sorted_desc(timestamps)"),
         ],
         ensures=[
             # property: a message is refused only when some applicable rule already passed n messages in its interval
-            ("refused-only-if-rule-exhausted",
-             "implies(result, any_range(0, len(rules), lambda q: rules[q][1] >= 0 and %s >= rules[q][1]))" % CNT_ALL),
+            ("refused-only-if-rule-exhausted", "implies(result, exhausted(rules, %s, %s))" % (OLD_TS, NOW)),
             # property: never more than n admitted in a window: admission requires every rule to have room
-            ("admitted-only-if-room",
-             "implies(not result, all_range(0, len(rules), lambda q: implies(rules[q][1] >= 0, %s < rules[q][1])))" % CNT_ALL),
+            ("admitted-only-if-room", "implies(not result, has_room(rules, %s, %s))" % (OLD_TS, NOW)),
             # frame: history is kept, or dropped only when no entry can matter to any rule any more
             ("history-kept-or-irrelevant",
-             "timestamps == %s or (len(timestamps) == 0 and all_range(0, len(%s), lambda i: all_range(0, len(rules), lambda q: %s - %s[i] >= rules[q][0])))"
-             % (OLD_TS, OLD_TS, NOW, OLD_TS)),
+             "timestamps == %s or (len(timestamps) == 0 and irrelevant(rules, %s, %s))" % (OLD_TS, OLD_TS, NOW)),
             ("clock-monotone", "%s >= old(%s)" % (NOW, NOW)),
+            ("stays-sorted", "sorted_desc(timestamps)"),
+            ("refused-keeps-history", "implies(result, timestamps == %s)" % OLD_TS),
         ],
         modifies=["timestamps", "ghost.clock"],
         returns=V.Bool,
@@ -94,7 +119,266 @@ evaluate_rules = REG.unit(Unit(
     hints={
         "post:refused-only-if-rule-exhausted": ["cnt_mono(timestamps, _k + 1, len(timestamps), now, interval)",
                                                 "cnt_nonneg(timestamps, _k, now, interval)"],
-        "post:admitted-only-if-room": ["cnt_nonneg(timestamps, len(timestamps), now, 0)"],
+        "post:admitted-only-if-room": [
+            "all_range(0, len(rules), lambda q: cnt_zero_outside(old(timestamps), len(old(timestamps)), now, rules[q][0]))"],
     },
     canaries=[("always-admits", "not result"), ("never-clears", "len(timestamps) == len(%s)" % OLD_TS)],
 ))
+
+
+# =============================================================================================
+# is_limited / cleanup: state model
+# =============================================================================================
+class MapTy(V.Ty):
+    """total map K -> V (python defaultdict: a missing key reads as the default/empty value)"""
+
+    def __init__(self, k, v):
+        self.k, self.v = k, v
+        self.name = "Map[%r,%r]" % (k, v)
+
+    def sort(self):
+        return z3.ArraySort(self.k.sort(), self.v.sort())
+
+
+INNER = MapTy(V.Str, TS)
+RCMAP = MapTy(V.Str, INNER)
+RULEMAP = V.Dict(V.Str, V.Dict(V.Str, RULES))
+
+REG.classes["RecentCommands"] = {"map": RCMAP}
+REG.classes["RateLimiter"].update({"rules": RULEMAP, "recent_commands": V.ObjT("RecentCommands")})
+
+
+class ScopeView:
+    """self.recent_commands[scope] : inner defaultdict(command -> deque)"""
+
+    def __init__(self, rc_ref, k1):
+        self.rc_ref = rc_ref
+        self.k1 = k1
+
+    def __pyvc_getitem__(self, sx, k2, st, node):
+        from pyvc.sx import View
+
+        rc_cell = self.rc_ref.cell
+        k1, k2t = self.k1, k2.term
+
+        def get(s):
+            m = s.getcell(rc_cell)["map"]
+            return Val(TS, z3.Select(z3.Select(m.term, k1), k2t))
+
+        def set_(s, val):
+            m = s.getcell(rc_cell)["map"]
+            s.getcell(rc_cell)["map"] = Val(RCMAP, z3.Store(m.term, k1, z3.Store(z3.Select(m.term, k1), k2t, val.term)))
+
+        cell = st.alloc(View(get, set_))
+        for w in TS.wellformed(get(st).term):
+            st.assume(w)
+        return [R(st, Ref(TS, cell))]
+
+
+@REG.hook("getitem", "RecentCommands")
+def _rc_getitem(sx, obj, k, st, node):
+    return [R(st, Conc(ScopeView(obj, k.term)))]
+
+
+PACKED = REG.ufun("ip_packed", [z3.StringSort()], z3.StringSort())
+VALID_IP = REG.ufun("valid_ip", [z3.StringSort()], z3.BoolSort())
+
+
+def ip_facts(x):
+    p = PACKED(x)
+    return [z3.Or(z3.Length(p) == 4, z3.Length(p) == 16), x != z3.StringVal("global"), x != z3.StringVal("ip"),
+            # an IPv4 literal contains a dot and an IPv6 literal a colon (ipaddress module)
+            z3.Or(z3.Contains(x, z3.StringVal(".")), z3.Contains(x, z3.StringVal(":")))]
+
+
+class IPObj:
+    def __init__(self, x):
+        self.x = x
+
+    def __pyvc_getattr__(self, sx, attr, st, node):
+        if attr == "packed":
+            return [R(st, Val(V.Bytes, PACKED(self.x)))]
+        raise Exception("ip attr " + attr)
+
+
+@REG.model("ip_address")
+def _ip_address(sx, args, kwargs, st, node):
+    """ipaddress.ip_address (ASSUMED): ValueError unless the string is an IPv4/IPv6 literal; .packed has 4 or 16 bytes
+    and is injective on valid literals up to textual normalisation"""
+    x = args[0].term
+    outs = []
+    if not sx.spec_mode:
+        s2 = st.fork().assume(z3.Not(VALID_IP(x)))
+        if sx.feasible(s2):
+            outs.append(R(s2, None, Exc("ValueError")))
+        st.assume(VALID_IP(x))
+    for f in ip_facts(x):
+        st.assume(f)
+    outs.append(R(st, Conc(IPObj(x))))
+    return outs
+
+
+@REG.model("valid_ip")
+def _valid_ip(sx, args, kwargs, st, node):
+    return [R(st, Val(V.Bool, VALID_IP(args[0].term)))]
+
+
+@REG.model("packed")
+def _packed(sx, args, kwargs, st, node):
+    for f in ip_facts(args[0].term):
+        st.assume(z3.Implies(VALID_IP(args[0].term), f))
+    return [R(st, Val(V.Bytes, PACKED(args[0].term)))]
+
+
+@REG.model("dq")
+def _dq(sx, args, kwargs, st, node):
+    """spec accessor: the deque of (scope key, command) -- dq(self.recent_commands, scope, command)"""
+    rc, k1, k2 = args
+    m = st.getcell(rc.cell)["map"]
+    k1 = sx.lift(k1) if isinstance(k1, Conc) else k1
+    k2 = sx.lift(k2) if isinstance(k2, Conc) else k2
+    return [R(st, Val(TS, z3.Select(z3.Select(m.term, k1.term), k2.term)))]
+
+
+@REG.model("rcmap")
+def _rcmap(sx, args, kwargs, st, node):
+    return [R(st, st.getcell(args[0].cell)["map"])]
+
+
+REG.spec_funcs["rep"] = SpecFunc(
+    REG, "rep", [("ts", TS), ("now", V.Real)], V.Bool,
+    """
+def rep(ts, now):
+    # representation invariant of one deque: newest first, nothing from the future (the head is the newest)
+    return sorted_desc(ts) and (len(ts) == 0 or ts[0] <= now)
+""")
+
+lemma("sorted_cons", [("d", TS), ("r", TS)],
+      "sorted_desc(d) and len(r) == len(d) + 1 and all_range(1, len(r), lambda i: r[i] == d[i - 1]) and (len(d) == 0 or r[0] >= d[0])",
+      "sorted_desc(r)", props=["C18"])
+lemma("sorted_empty", [("d", TS)], "len(d) == 0", "sorted_desc(d)", props=["C18"])
+
+REG.spec_funcs["applicable"] = SpecFunc(
+    REG, "applicable", [("rules", RULEMAP), ("key", V.Str), ("command", V.Str)], V.Bool,
+    """
+def applicable(rules, key, command):
+    return key in rules and bool(rules[key]) and command in rules[key]
+""")
+
+
+
+def REP(scope):
+    return "rep(dq(self.recent_commands, %s, %s), %s)" % (scope[0], scope[1], NOW)
+
+
+def setup_limiter(sx, st, params):
+    st.ghost["clock"] = sx.fresh(V.Real, "clock0", st)
+    # evaluate_rules' contract requires non-empty rule lists: parse_option never stores an empty list for a
+    # command that appears; here it is an object invariant of self.rules
+    selfobj = st.getcell(params["self"].cell)
+    rules = st.getcell(selfobj["rules"].cell)
+    k = z3.String(fresh_name("rk"))
+    c = z3.String(fresh_name("rc"))
+    inner = RULEMAP.v
+    rl = z3.Select(inner.map(z3.Select(RULEMAP.map(rules.term), k)), c)
+    st.assume(z3.ForAll([k, c], RULES.n(rl) > 0))
+
+
+CMD = "message[0]"
+SCOPES = [("b'global'", CMD), ("packed(client_address)", CMD), ("s0", "c0")]
+OLD_DQ_IP = "old(dq(self.recent_commands, packed(client_address), message[0]))"
+OLD_DQ_G = "old(dq(self.recent_commands, b'global', message[0]))"
+is_limited_contract = Contract(
+    "RateLimiter.is_limited",
+    {"self": V.ObjT("RateLimiter"), "client_address": V.Str, "message": V.List(V.Str), "s0": V.Bytes, "c0": V.Str},
+    requires=[("message-has-command", "len(message) >= 1")] + [("deque-wellformed-%d" % i, REP(sc)) for i, sc in enumerate(SCOPES)],
+    ensures=[
+        # (s0, c0) is an arbitrary scope/command pair (ghost parameters): every deque keeps its invariant
+        ("deques-stay-wellformed", REP(("s0", "c0"))),
+        # refused => nothing recorded: only admitted messages enter the history
+        ("refused-leaves-no-record", "implies(result, dq(self.recent_commands, s0, c0) == old(dq(self.recent_commands, s0, c0)))"),
+        # refused only when some applicable scope is exhausted (w.r.t. what was recorded before this message)
+        ("refused-only-if-some-scope-exhausted",
+         "implies(result, "
+         "(applicable(self.rules, client_address, message[0]) and exhausted(self.rules[client_address][message[0]], %(ip)s, %(now)s))"
+         " or (applicable(self.rules, 'global', message[0]) and exhausted(self.rules['global'][message[0]], %(g)s, %(now)s))"
+         " or (applicable(self.rules, 'ip', message[0]) and exhausted(self.rules['ip'][message[0]], %(ip)s, %(now)s)))" % {"now": NOW, "ip": OLD_DQ_IP, "g": OLD_DQ_G}),
+        # a specific-address rule overrides the generic ones
+        ("specific-rule-overrides",
+         "implies(applicable(self.rules, client_address, message[0]), "
+         "dq(self.recent_commands, b'global', message[0]) == %s)" % OLD_DQ_G),
+        # admitted => recorded (newest first) under the applicable generic scope when no specific rule exists
+        ("admitted-is-recorded",
+         "implies(not result and not applicable(self.rules, client_address, message[0]) and applicable(self.rules, 'global', message[0]), "
+         "len(dq(self.recent_commands, b'global', message[0])) >= 1 and dq(self.recent_commands, b'global', message[0])[0] >= old(%s)"
+         " and dq(self.recent_commands, b'global', message[0])[0] <= %s)" % (NOW, NOW)),
+        ("no-rules-no-limit", "implies(not bool(self.rules), not result)"),
+        # frame: only the deques of this command under 'global' and under this address can change
+        ("frame", "implies(not ((s0 == b'global' or s0 == packed(client_address)) and c0 == message[0]), "
+                  "dq(self.recent_commands, s0, c0) == old(dq(self.recent_commands, s0, c0)))"),
+    ],
+    raises={"ValueError": "not valid_ip(client_address)"},
+    modifies=["self.recent_commands", "ghost.clock"],
+    returns=V.Bool,
+)
+is_limited_contract.ghost_params = ("s0", "c0")
+is_limited = REG.unit(Unit(
+    P, "RateLimiter.is_limited", is_limited_contract,
+    props=["C18"],
+    setup=setup_limiter,
+    canaries=[("never-limits", "not result")],
+))
+is_limited.reveal = ("applicable",)
+is_limited.stmt_hints = [
+    ("recent_timestamps.insert(0", {"_pre": "recent_timestamps"}, ["sorted_cons(_pre, recent_timestamps)"]),
+]
+evaluate_rules.reveal = ("*",)
+
+
+# =============================================================================================
+# native replay (CPython) of counter-models of evaluate_rules
+# =============================================================================================
+def replay_evaluate_rules(name, insts):
+    import collections
+    import copy
+    import sys
+    from pyvc import native
+
+    sys.path.insert(0, "/repo")
+    from nostr_relay.rate_limiter import RateLimiter
+
+    label = name.split("/post:")[-1] if "/post:" in name else None
+    con = evaluate_rules.contract
+    post_src = dict(con.ensures).get(label)
+    tried = []
+    for inst in insts:
+        inp = inst.get("inputs")
+        if not inp or post_src is None:
+            continue
+        rules = [tuple(r) for r in inp["rules"]]
+        ts = collections.deque(inp["timestamps"])
+        now = inst.get("ghost", {}).get("clock", 0.0)
+        clock0 = inst.get("ghost_entry", {}).get("clock", now)
+
+        class RL(RateLimiter):
+            def _timestamp(self):
+                return now
+
+        rl = RL({})
+        pre = {"rules": rules, "timestamps": list(ts), "self": rl}
+        try:
+            result = rl.evaluate_rules(rules, ts)
+        except Exception as e:  # noqa
+            tried.append({"input": {"rules": rules, "timestamps": pre["timestamps"], "now": now}, "raised": repr(e)})
+            continue
+        post = {"rules": rules, "timestamps": list(ts), "self": rl, "result": result}
+        overrides = {"sorted_desc": lambda t: all(t[i] >= t[j] for i in range(len(t)) for j in range(i, len(t)))}
+        # precondition must hold natively, else the model is outside the contract (engine fault, not a violation)
+        pre_ok = all(native.native_eval(REG, src, pre, pre, {"pre": {"clock": clock0}, "post": {"clock": clock0}}, overrides) for _, src in con.requires)
+        holds = native.native_eval(REG, post_src, post, pre, {"pre": {"clock": clock0}, "post": {"clock": now}}, overrides)
+        rec = {"input": {"rules": rules, "timestamps": pre["timestamps"], "now": now}, "observed_result": result,
+               "timestamps_after": list(ts), "precondition_holds": bool(pre_ok), "postcondition": post_src, "postcondition_holds": bool(holds)}
+        tried.append(rec)
+        if pre_ok and not holds:
+            return {"replayed": True, "confirmed": True, "how": "real RateLimiter.evaluate_rules called natively with the decoded counter-model; clock injected", **rec}
+    return {"replayed": bool(tried), "confirmed": False, "tried": tried[:3]}
